@@ -186,8 +186,10 @@ class EnsureLists(Stream):
 
     def corpus(self):
         return [{'shapes': s} for s in ([[7], [7, 2]], [[7, 2], [7]], [[7, 1], [6, 1]], [[7, 2, 3], [7, 2]], [[7], [7], [8]],
-                                        [[7, 3], [7, 3, 2], [7, 3, 2]], [[], [3]], [[3], []])] + [
-            {'shapes': []}]     # no array at all: IndexError for dim=None, silent pass for a given dim (C19.ensure_equal_dims_empty_list)
+                                        [[7, 3], [7, 3, 2], [7, 3, 2]], [[], [3]], [[3], []])]
+        # (an EMPTY list of arrays is outside the property - it speaks about the arrays that are passed - so it is not part
+        #  of the correspondence or the instance check: a harmless rewrite may treat it differently. The model's answer on it,
+        #  C19.ensure_equal_dims_empty_list, was checked against the code by hand when the two shape models were reconciled.)
 
     def generate(self, rng, tier):
         dims = [1, 2, 3, N] if tier == 'thorough' else [1, 2, N]
